@@ -139,13 +139,20 @@ def scenarios(tier):
             small = [61, 120, 121, 179, 181]
             mid = [119, 180, 240, 241, 600, 601]
             large = [1785, 15300]
-        wins = [1, 2, 3, 255]
+        wins = [1, 2, 3, 255] if quick else [1, 2, 3, 5, 8, 255]
+        limits = (1, 2, 5, 255) if quick else (1, 2, 3, 5, 8, 255)
+        if not quick:
+            # every size across the first packet boundaries
+            extra = list(range(9, 65)) if dll == 'j1939-21' else list(range(61, 250, 1))
+            mid = sorted(set(mid) | set(x for x in extra if x not in small))
         # (a) stack originates
         for size in small + mid + large:
             for win in wins:
                 if size in large and win in (2, 3) and quick:
                     continue
                 bound = (2 if size in small else 1 if size in mid else 0) if not quick else (1 if size in small + mid[:3] else 0)
+                if not quick and size in mid and size not in (28, 35, 63, 64, 70, 71, 84, 119, 180, 240, 241, 600, 601) and win not in (2, 255):
+                    continue
                 grants = 'all' if size in small + mid else [1, 2]
                 sc = {'dll': dll, 'role': 'orig', 'kind': 'p2p', 'size': size, 'win': win, 'grants': grants,
                       'pat': size % 3, 'dp': size % 2}
@@ -158,7 +165,7 @@ def scenarios(tier):
         # (b) conforming peer originates
         for size in small + mid + large:
             for win in wins:
-                for limit in (1, 2, 5, 255):
+                for limit in limits:
                     if quick and (size in large or size in mid[3:]) and (win, limit) not in ((1, 255), (255, 255), (3, 2), (255, 1)):
                         continue
                     bound = 1 if size in small + mid else 0
